@@ -583,8 +583,7 @@ Definition c07 : Q := (3152519739159347 # 4503599627370496)%Q.   (* the double 0
 (* the polynomial part: returns Y0[0..L] (None: "zero omega") *)
 Definition bl_poly (L : nat) (convex : bool) (R : nat -> vec) : option ((nat -> S) * S) :=
   (* MZa(i,j) = <R_i, R_j>, j <= i; symmetrised *)
-  let MZ := fun i j => if Nat.leb j i then ip (R i) (R j) else sadj (ip (R j) (R i)) in
-  let MZl := fun i j => if Nat.ltb i j then MZ i j else if Nat.eqb i j then MZ i j else sadj (MZ i j) in
+  (* after symmetrisation: diagonal <R_i,R_i>, both (i,j) and (j,i), j < i, hold adjoint(<R_i,R_j>) *)
   let MZb := fun i j => if Nat.ltb j i then sadj (ip (R i) (R j)) else if Nat.eqb i j then ip (R i) (R i) else sadj (ip (R j) (R i)) in
   let Asub := fun i j => MZb (1 + i)%nat (1 + j)%nat in
   let Y0 :=
